@@ -418,6 +418,11 @@ def L2_guards(ctx, rid, core, G, scope_fns):
                                 wrapped |= set(c[2].split("|"))
                             if c[0] == "when" and c[2] is True and any(p[0] == "needs_parens_in_binop" and p[1] and ren.get(p[1][0], p[1][0]) == child for p in c[1]):
                                 wrapped.add("BinaryOp")
+                            # `if matches!(child.node, A | B)` / `if let A = child.node` (possibly handed to a wrapping helper as a flag)
+                            if c[0] == "when" and len(c) > 3:
+                                for fct in c[3] or ():
+                                    if fct[0] == "kind" and fct[3] is True and fct[1] and ren.get(fct[1][0], fct[1][0]) == child:
+                                        wrapped |= set(fct[2].split("|"))
             if not seen_child:
                 continue
             missing = sorted(need - wrapped)
